@@ -933,6 +933,8 @@ pub fn units() -> Vec<Unit> {
             Struct("TxChannel"),
             Struct("RxWindows"),
             Fn("Mac::rx_windows"),
+            // builder H: the window selection
+            Fn("RxWindows::get"),
         ],
     },
     // ---- builder W (tie A for the MAC's top-level state machine)
@@ -1229,6 +1231,75 @@ pub fn units() -> Vec<Unit> {
             CustomMulti(crate::maccmd::payloads),
             CustomMulti(crate::maccmd_sets::payloads_uplink_mac),
             CustomMulti(crate::maccmd_creators::creators),
+        ],
+    },
+    // ---- builder H (tie A for the region wiring): `region_dispatch!` expanded with its own rules, each arm followed
+    // through `State::new`'s plan type to the plan's `RegionHandler` impl and the region type (dispatch.rs)
+    Unit {
+        module: "Gen.RegionDispatch",
+        file: "lorawan-device/src/region/mod.rs",
+        more_files: vec![
+            "lorawan-encoding/src/types.rs",
+            "lorawan-device/src/region/constants.rs",
+            "lorawan-device/src/mac/mod.rs",
+            "lora-modulation/src/lib.rs",
+            "lorawan-device/src/region/dynamic_channel_plans/mod.rs",
+            "lorawan-device/src/region/dynamic_channel_plans/eu868.rs",
+            "lorawan-device/src/region/dynamic_channel_plans/eu433.rs",
+            "lorawan-device/src/region/dynamic_channel_plans/in865.rs",
+            "lorawan-device/src/region/dynamic_channel_plans/as923.rs",
+            "lorawan-device/src/region/fixed_channel_plans/mod.rs",
+            "lorawan-device/src/region/fixed_channel_plans/us915/mod.rs",
+            "lorawan-device/src/region/fixed_channel_plans/us915/datarates.rs",
+            "lorawan-device/src/region/fixed_channel_plans/us915/frequencies.rs",
+            "lorawan-device/src/region/fixed_channel_plans/au915/mod.rs",
+            "lorawan-device/src/region/fixed_channel_plans/au915/datarates.rs",
+            "lorawan-device/src/region/fixed_channel_plans/au915/frequencies.rs",
+        ],
+        imports: vec!["LoraVerif.Gen.Region", "LoraVerif.Gen.RegionStatic"],
+        items: vec![
+            ExternUnit("Gen.Region"),
+            ExternEnum("Region"),
+            CustomMulti(crate::dispatch::region_dispatch),
+            CustomMulti(crate::dispatch::region_tables),
+        ],
+    },
+    Unit {
+        module: "Gen.RegionPayload",
+        file: "lorawan-device/src/region/mod.rs",
+        more_files: vec![
+            "lorawan-encoding/src/types.rs",
+            "lorawan-device/src/region/constants.rs",
+            "lorawan-device/src/mac/mod.rs",
+            "lora-modulation/src/lib.rs",
+            "lorawan-device/src/region/dynamic_channel_plans/mod.rs",
+            "lorawan-device/src/region/dynamic_channel_plans/eu868.rs",
+            "lorawan-device/src/region/dynamic_channel_plans/eu433.rs",
+            "lorawan-device/src/region/dynamic_channel_plans/in865.rs",
+            "lorawan-device/src/region/dynamic_channel_plans/as923.rs",
+            "lorawan-device/src/region/fixed_channel_plans/mod.rs",
+            "lorawan-device/src/region/fixed_channel_plans/us915/mod.rs",
+            "lorawan-device/src/region/fixed_channel_plans/us915/datarates.rs",
+            "lorawan-device/src/region/fixed_channel_plans/us915/frequencies.rs",
+            "lorawan-device/src/region/fixed_channel_plans/au915/mod.rs",
+            "lorawan-device/src/region/fixed_channel_plans/au915/datarates.rs",
+            "lorawan-device/src/region/fixed_channel_plans/au915/frequencies.rs",
+        ],
+        imports: vec!["LoraVerif.Gen.Region", "LoraVerif.Gen.RegionStatic"],
+        items: vec![
+            ExternUnit("Gen.Region"),
+            ExternEnum("Region"),
+            CustomMulti(crate::dispatch::region_static_dispatch),
+        ],
+    },
+    Unit {
+        module: "Gen.NextLowerDr",
+        file: "lorawan-device/src/mac/session.rs",
+        more_files: vec![],
+        imports: vec!["LoraVerif.Gen.Region", "LoraVerif.Gen.RegionStatic", "!LoraVerif.Gen.RegionDispatch"],
+        items: vec![
+            Raw(crate::dispatch::NEXT_LOWER_RAW),
+            CustomMulti(crate::dispatch::next_lower),
         ],
     },
     ]
